@@ -629,6 +629,12 @@ func init() {
 					_ = os.WriteFile(rp, b, 0644)
 					key := "C13|runs-differ"
 					if o.CLI.Exit == first.CLI.Exit && fmt.Sprint(canonRunStderr(o)) == fmt.Sprint(canonRunStderr(first)) &&
+						o.Output != nil && first.Output != nil && (o.Scenario.Cwd == "..") != (first.Scenario.Cwd == "..") &&
+						onlyModuleImportsDiffer(*first.Output, *o.Output) {
+						// exactly one of the two runs was started outside the module and they agree on everything but imports of
+						// packages of the module (added, dropped or renamed): goimports asked the go command from the working directory
+						key = "C13|runs-differ|module-local-package-resolved-from-cwd"
+					} else if o.CLI.Exit == first.CLI.Exit && fmt.Sprint(canonRunStderr(o)) == fmt.Sprint(canonRunStderr(first)) &&
 						o.Output != nil && first.Output != nil && onlyAddedImportsDiffer(*first.Output, *o.Output, files[setup]) {
 						// the runs agree on everything but the path of an import that the setup file does not have:
 						// goimports resolved a package name that several packages share
@@ -868,6 +874,34 @@ func onlyAddedImportsDiffer(a, b, setupSrc string) bool {
 		}
 		m := reImportLine.FindStringSubmatch(l)
 		if m == nil || strings.Contains(setupSrc, `"`+m[3]+`"`) {
+			return false
+		}
+		n++
+	}
+	return n > 0
+}
+
+// onlyModuleImportsDiffer: the two outputs differ in import lines only, and every differing line imports a package of the
+// scratch module
+func onlyModuleImportsDiffer(a, b string) bool {
+	count := map[string]int{}
+	for _, l := range strings.Split(a, "\n") {
+		count[l]++
+	}
+	for _, l := range strings.Split(b, "\n") {
+		count[l]--
+	}
+	n := 0
+	for l, c := range count {
+		if c == 0 {
+			continue
+		}
+		t := strings.TrimSpace(l)
+		if t == "import (" || t == ")" || t == "" {
+			continue // a single import is written without parentheses
+		}
+		m := reImportLine.FindStringSubmatch(l)
+		if m == nil || !strings.HasPrefix(m[3], "exp/") {
 			return false
 		}
 		n++
